@@ -318,7 +318,18 @@ type property struct {
 type objectBase struct {
 	properties []*property
 	lock       sync.Mutex
+	// bytes consumed by the last unmarshal
+	decoded int
 }
+
+// Containers know what their last UnmarshalBinary consumed, so the parent need not re-walk them.
+type consumer interface {
+	consumed() int
+}
+
+func (v *Object) consumed() int      { return 1 + v.decoded }
+func (v *EcmaArray) consumed() int   { return 5 + v.decoded }
+func (v *StrictArray) consumed() int { return 5 + v.decoded }
 
 func (v *objectBase) Size() int {
 	v.lock.Lock()
@@ -369,6 +380,8 @@ func (v *objectBase) Set(key string, value Amf0) *objectBase {
 }
 
 func (v *objectBase) unmarshal(p []byte, eof bool, maxElems int) (err error) {
+	total := len(p)
+	defer func() { v.decoded = total - len(p) }()
 	// if no eof, elems specified by maxElems.
 	if !eof && maxElems < 0 {
 		return oe.Errorf("maxElems=%v without eof", maxElems)
@@ -404,7 +417,11 @@ func (v *objectBase) unmarshal(p []byte, eof bool, maxElems int) (err error) {
 		v.properties = append(v.properties, &property{key: u, value: a})
 		v.lock.Unlock()
 
-		p = p[a.Size():]
+		if c, ok := a.(consumer); ok {
+			p = p[c.consumed():]
+		} else {
+			p = p[a.Size():]
+		}
 		return nil
 	}
 
